@@ -377,9 +377,8 @@ class Wrapper:
             return "[]" if t[2][0] == U else "[" + self.expr(t[2][0]) + "]"
         if k == "n" and t[1] == "Optional":
             return "none()" if t[2][0] == U else "some(" + self.expr(t[2][0]) + ")"
-        if k == "n" and t[1] == "Generator" and t[2][0] != U:
-            # (`[].to_generator()` is a Generator<T> with a free T, not a Generator<unknown>: see WITNESSES)
-            return "[" + self.expr(t[2][0]) + "].to_generator()"
+        if k == "n" and t[1] == "Generator":
+            return ("[]" if t[2][0] == U else "[" + self.expr(t[2][0]) + "]") + ".to_generator()"
         if k == "c" and t[1] == "S" and t[2] in "BCD":
             return t[2] + "(" + ", ".join(self.expr(c) for c in t[3]) + ")"
         if k == "c" and t[2] == "F":
@@ -487,7 +486,7 @@ def run(chk):
         rest = [p for p in pairs if not (p[0][0] == p[1][0] or p[0][0] == "g" or p[1][0] == "u" or (p[0][0], p[1][0]) == ("k", "x"))]
         pairs = same if len(same) <= 60000 else rng.sample(same, 60000)
         pairs += rng.sample(rest, min(len(rest), 5000))
-    n_deep = 6000 if quick else 150000
+    n_deep = 6000 if quick else 100000
     for _ in range(n_deep):
         d = rng.choice([2, 2, 3])
         r = rand_type(rng, d, R_ATOMS_WIDE[:4] + R_ATOMS_WIDE[6:], False, False, ["T", "U"])
@@ -578,7 +577,7 @@ def run(chk):
     # ------------------------------------------------------------------ route 2: through the language
     lp = []
     base_r = [t for t in depth1(R_ATOMS, with_func=False)]
-    n_lang = 2600 if quick else 40000
+    n_lang = 2600 if quick else 12000
     while len(lp) < n_lang:
         m = rng.random()
         if m < 0.35:
@@ -727,8 +726,10 @@ WITNESSES = [
     ("struct-field-join-good", 'struct P<T>(x:T, y:T) let q: P<Optional<int>> = P(none(), some(1));', True),
     ("compound-common-order", 'struct P<T,U>(x:T,y:U) let a = [P(none(), [1]), P(some(1), [])]; '
      'let r: Sequence<P<Optional<int>,Sequence<int>>> = a;', True),
-    # a generic parameter matched only against the bottom type stays a free generic in the inferred return type
+    # (repaired) a generic parameter matched only against the bottom type is unknown in the inferred return type
     ("generic-call-unknown-arg", 'let g: Generator<int> = [].to_generator();', True),
+    ("generic-call-unknown-arg-2", 'let o: Optional<Sequence<str>> = some(error("x"));', True),
+    ("generic-call-recursive", 'fn f<T>(x: T, n: int)->Sequence<T>{ (n == 0).if([x], f(x, n-1)) } let r: Sequence<int> = f(1, 2);', True),
     ("book-apply-twice", 'fn apply_twice(f: (int) -> (int), x: int) -> int { f(f(x)) } fn add_one(x: int) -> int { x + 1 } '
      'let x = apply_twice(add_one, 10);', True),
 ]
